@@ -363,7 +363,16 @@ def tasks(tier):
     from contracts.dimse_frag import SendMsgTask
     # which message class a primitive is converted with (request or response of ITS type) is decided in
     # DIMSEServiceProvider.send_msg, the one caller of primitive_to_message on the sending side
-    return [TablesTask()] + [RoundTripTask(n) for n in sorted(COMMAND_FIELD)] + [SendMsgTask("C17/"), GroupLengthTask()]
+    from contracts import dimse_frag as D
+    # "...encoding it and decoding it again": between primitive_to_message and message_to_primitive the command set and data set
+    # travel as PDV fragments; that encode_msg / _generate_pdv_fragments / decode_msg hand over exactly those bytes, for every
+    # length and maximum PDU size, is C15's contract set - re-proved under this id (RELABEL below)
+    return [TablesTask()] + [RoundTripTask(n) for n in sorted(COMMAND_FIELD)] + [SendMsgTask("C17/"), GroupLengthTask()] + \
+        [D.GenTask(), D.EncodeTask("mem"), D.EncodeTask("mem-empty"), D.EncodeTask("none"), D.EncodeTask("file"), D.DecodeStepTask()]
+
+
+RELABEL = {"C15/": "C17/wire:"}
+RELABEL_ONLY = {"C15/": r"encode_msg|_generate_pdv_fragments|decode_msg"}
 
 
 bounded_results = [{"what": "replay/C17.py (thorough tier, native): real primitive -> primitive_to_message -> encode_msg (pydicom) -> decode_msg -> "
@@ -376,6 +385,8 @@ bounded_results = [{"what": "replay/C17.py (thorough tier, native): real primiti
 def replay(rec):
     from pyvc.replay import run_replay
     oid = rec.get("id", "")
+    if oid.startswith("C17/wire:"):
+        return run_replay("C15", dict(rec, id="C15/" + oid[len("C17/wire:"):]))
     if "DIMSEServiceProvider.send_msg" in oid:
         # the send_msg contract is shared with C15: its native harness drives the real send_msg
         return run_replay("C15", dict(rec, id="C15/" + oid[len("C17/"):]))
